@@ -30,7 +30,7 @@ def parseSvc (j : Json) : NSvc :=
 
 def parseDoc (j : Json) : NDoc :=
   { id := jStr j "id", idID := jStr j "idID", idEmpty := jBool j "idEmpty", hasDidCtx := jBool j "hasDidCtx",
-    contexts := jStrs j "contexts", controllers := jStrs j "controllers", ctrlEmptyAny := jBool j "ctrlEmptyAny",
+    contexts := jStrs j "contexts", controllers := jStrs j "controllers", ctrlEmptyAny := jBool j "ctrlEmptyAny", vmNull := jBool j "vmNull", relNull := jBool j "relNull",
     vms := (jArr j "vms").map parseVM, auth := (jArr j "auth").map parseVM, assertion := (jArr j "assertion").map parseVM,
     keyAgr := (jArr j "keyAgr").map parseVM, capInv := (jArr j "capInv").map parseVM, capDel := (jArr j "capDel").map parseVM,
     services := (jArr j "services").map parseSvc }
